@@ -15,7 +15,7 @@ func init() {
 		Level: "Structural necessary conditions of consistent concurrent views, decided on every (correlated-branch feasible) path: a query captures memtables and file lists and takes its references while holding the shared snapshot lock and the file-list locks; " +
 			"the flushed flag is read after both lists were captured and written after both lists were extended, with the list locks held to the end; a data file is physically removed only when unused; table/plan references are released on every exit; " +
 			"flush publishes files before dropping the snapshot table (C01.R3); thorough tier: the acquired-while-holding graph of the engine's mutex classes is acyclic. " +
-			"NOT decided: data races on non-mutex state, that every acknowledged point is returned (schedule-dependent values).",
+			"an old file that is still in use is renamed to its temporary name before it is handed to the deferred remover, so a crash leaves no replaced file under a loadable name; NOT decided: data races on non-mutex state, that every acknowledged point is returned (schedule-dependent values).",
 		Assumptions: append([]string{"locks are identified by the canonical receiver path of the Lock/RLock call inside one function; aliases through the heap are not followed"}, commonAssumptions...),
 		Technique:   "static analysis: must-hold lockset dataflow on the correlated-branch product of go/cfg, control-dependence guards, post-dominance pairing, lock-order graph",
 		Rules:       "C04.R1 R2 R3 R4 R5(thorough)",
